@@ -17,6 +17,7 @@ import (
 	nodetls "github.com/hashicorp/nodeenrollment/tls"
 	"github.com/hashicorp/nodeenrollment/types"
 	"github.com/hashicorp/nodeenrollment/zzverif/vf"
+	"github.com/hashicorp/nodeenrollment/zzverif/vfs"
 	"google.golang.org/protobuf/proto"
 	"google.golang.org/protobuf/types/known/timestamppb"
 )
@@ -47,7 +48,7 @@ func vfRequestOf(cfg *tls.Config) *types.GenerateServerCertificatesRequest {
 // chains to a CA in the node's own bundles and carries this connection's nonce.
 func VerifC07RogueServer() {
 	ctx := context.Background()
-	st := &vfStorage{}
+	st := &vfs.Storage{}
 	t0 := vf.Now()
 	deadline := t0.Add(time.Second)
 	ok := func(step string, err error) {
@@ -58,14 +59,14 @@ func VerifC07RogueServer() {
 	mkRoot := func(k int, id string) *types.RootCertificate {
 		tmpl := &x509.Certificate{SubjectKeyId: vf.Pkix(k), Subject: pkix.Name{CommonName: "root"}, SerialNumber: big.NewInt(1),
 			NotBefore: t0.Add(-time.Hour), NotAfter: t0.Add(time.Hour), IsCA: true, BasicConstraintsValid: true}
-		der := vfMkCert(tmpl, tmpl, k, k)
+		der := vfs.MkCert(tmpl, tmpl, k, k)
 		return &types.RootCertificate{Id: id, PublicKeyPkix: vf.Pkix(k), PrivateKeyPkcs8: vf.Pkcs8(k), PrivateKeyType: types.KEYTYPE_ED25519,
 			CertificateDer: der, NotBefore: timestamppb.New(tmpl.NotBefore), NotAfter: timestamppb.New(tmpl.NotAfter)}
 	}
 	ok("store-roots", (&types.RootCertificates{Id: nodeenrollment.RootsMessageId, Current: mkRoot(0, "current"), Next: mkRoot(1, "next")}).Store(ctx, st))
 
 	// honest enrollment with the library's own code
-	nodeSt := &vfStorage{}
+	nodeSt := &vfs.Storage{}
 	creds, err := types.NewNodeCredentials(ctx, nodeSt)
 	ok("new-creds", err)
 	freq, err := creds.CreateFetchNodeCredentialsRequest(ctx)
@@ -100,8 +101,8 @@ func VerifC07RogueServer() {
 	case 2: // foreign root, leaf carries this nonce
 		ftmpl := &x509.Certificate{SubjectKeyId: vf.Pkix(5), Subject: pkix.Name{CommonName: "foreign"}, SerialNumber: big.NewInt(1),
 			NotBefore: t0.Add(-time.Hour), NotAfter: t0.Add(time.Hour), IsCA: true, BasicConstraintsValid: true}
-		fder := vfMkCert(ftmpl, ftmpl, 5, 5)
-		leaf := vfMkCert(&x509.Certificate{Subject: pkix.Name{CommonName: "x"}, SerialNumber: big.NewInt(2),
+		fder := vfs.MkCert(ftmpl, ftmpl, 5, 5)
+		leaf := vfs.MkCert(&x509.Certificate{Subject: pkix.Name{CommonName: "x"}, SerialNumber: big.NewInt(2),
 			DNSNames: []string{base64.RawStdEncoding.EncodeToString(thisReq.Nonce)}, ExtKeyUsage: []x509.ExtKeyUsage{x509.ExtKeyUsageServerAuth},
 			NotBefore: ftmpl.NotBefore, NotAfter: ftmpl.NotAfter}, ftmpl, 6, 5)
 		chain = [][]byte{leaf, fder}
@@ -109,7 +110,7 @@ func VerifC07RogueServer() {
 		stmpl := &x509.Certificate{Subject: pkix.Name{CommonName: "self"}, SerialNumber: big.NewInt(3),
 			DNSNames: []string{base64.RawStdEncoding.EncodeToString(thisReq.Nonce)}, ExtKeyUsage: []x509.ExtKeyUsage{x509.ExtKeyUsageServerAuth},
 			NotBefore: t0.Add(-time.Hour), NotAfter: t0.Add(time.Hour), IsCA: true, BasicConstraintsValid: true}
-		chain = [][]byte{vfMkCert(stmpl, stmpl, 6, 6)}
+		chain = [][]byte{vfs.MkCert(stmpl, stmpl, 6, 6)}
 	}
 	// the CA names a server announces are public: every rogue can announce the node's real CA
 	realCA, err := x509.ParseCertificate(creds.CertificateBundles[0].CaCertificateDer)
